@@ -146,5 +146,5 @@ def finalize(tier: str, seed: int, counters: Dict[str, Any], evaluations: int, d
         },
         'inconclusive': inconclusive,
         'assumptions': ['the scoping rules of Appendix B of DESIGN.md (each confirmed by a probe)',
-                        'extern (>) labels and labels passed as parameters are not generated'],
+                        'extern (>) labels and label-valued parameters are generated only in macros called from the top level'],
     }
